@@ -1446,6 +1446,33 @@ def check_rmw_fn(ctx, tu, f, counter_ids, sign, file, followed=None):
     looped = bool(g.back_edges())
     if looped:
         lb = loop_blocks(g)
+        # recognised wrong: a compare-exchange retry loop whose desired value is a local computed once, outside the loop, from the expected
+        # value: a failed exchange reloads `expected`, the retry then installs the stale desired value and overwrites what the other
+        # threads did to the counter in between
+        body = tu.body(f)
+        for b, i, x in g.stmts():
+            ac = atomic_call(tu, x, counter_ids) if b.id in lb else None
+            if ac and ac[0] == 'write' and ac[1].startswith('compare_exchange'):
+                sd_, obj_, args_ = tu.call_parts(x)
+                if len(args_) >= 2:
+                    exp_id = tu.ref_decl(args_[0])
+                    des_id = tu.ref_decl(args_[1])
+                    dv = tu.node(des_id) if des_id is not None else None
+                    if exp_id is not None and dv is not None and dv.get('kind') == 'VarDecl' and tu.kids(dv):
+                        from_expected = any(y.get('kind') == 'DeclRefExpr' and y.get('referencedDecl', {}).get('id') == exp_id
+                                            for k in tu.kids(dv) for y in tu.walk(k))
+                        reassigned = any(y.get('kind') in ('BinaryOperator', 'CompoundAssignOperator', 'UnaryOperator') and
+                                         (y.get('opcode', '').endswith('=') and y.get('opcode') not in ('==', '!=', '<=', '>=') or
+                                          y.get('opcode') in ('++', '--')) and tu.ref_decl(tu.kids(y)[0]) == des_id for y in tu.walk(body))
+                        if from_expected and not reassigned:
+                            ctx.violation(R2, inst, '%s retries `%s` in a loop with the desired value `%s`, a local computed once before the loop '
+                                          'from `%s`: when the exchange fails because another thread changed the counter, `%s` is reloaded but `%s` '
+                                          'is not, so the retry installs a value derived from the old count - increments and decrements of the other '
+                                          'threads in between are overwritten, useCount() no longer equals creator + live handles and the decision to '
+                                          'delete is taken on a stale value' % (name, tu.show(x)[:60], dv.get('name'), tu.show(args_[0]),
+                                                                                tu.show(args_[0]), dv.get('name')), tu.loc(x),
+                                          key=kbase + 'cas-desired-not-recomputed')
+                            return 1
         for b, i, x in g.stmts():
             if b.id in lb and atomic_call(tu, x, counter_ids):
                 ctx.undecided(R2, inst, 'loop in %s that operates on the counter (compare-exchange loops are not modelled)' % name, tu.fn_loc(f))
